@@ -18,7 +18,7 @@ Known(e) == e.op \in {"f.add", "f.sub", "f.mul", "f.neg", "f.inv", "f.pow", "f.i
                       "f2.add", "f2.sub", "f2.mul", "f2.neg", "f2.parts", "f2.new", "f2.from_slice", "f2.eq", "f2.g2dbl",
                       "f2.laws", "f2.sqrt",
                       "g.add", "g.sub", "g.neg", "g.laws", "g.mul", "g.rmul", "g.modlaws", "g.eq", "g.normalize", "g.to_affine",
-                      "g.encode", "g.decode", "g.affine_new",
+                      "g.encode", "g.decode", "g.affine_new", "g.api",
                       "gt.one", "gt.mul", "gt.eq", "gt.pow", "gt.inv", "gt.laws", "pair", "pair.laws", "prep.reuse"} \cup TowerOps
 Chk(e) == CASE e.op \in {"f.add", "f.sub", "f.mul"} -> ChkFBin(e)
             [] e.op = "f.neg" -> ChkFNeg(e)
@@ -55,6 +55,7 @@ Chk(e) == CASE e.op \in {"f.add", "f.sub", "f.mul"} -> ChkFBin(e)
             [] e.op = "g.encode" -> ChkGEncode(e)
             [] e.op = "g.decode" -> ChkGDecode(e)
             [] e.op = "g.affine_new" -> ChkGAffineNew(e)
+            [] e.op = "g.api" -> ChkGApi(e)
             [] e.op = "gt.one" -> ChkGtOne(e)
             [] e.op = "gt.mul" -> ChkGtMul(e)
             [] e.op = "gt.eq" -> ChkGtEq(e)
